@@ -11,10 +11,14 @@ import (
 
 var verifPHosts = []string{"h0:80", "h1:80", "h2:80"}
 
-// verifPMaxT bounds every instant and FailTimeout so that no difference of two
-// instants leaves the int64 range (time.Time.Sub saturates there; the engine's
-// time model does not).
-const verifPMaxT = int64(1) << 60
+// verifPMaxT bounds every instant and FailTimeout (2^60 ns, both tiers) so that
+// no difference of two instants leaves the int64 range (time.Time.Sub saturates
+// there; the engine's time model does not).
+var verifPMaxT = int64(1) << 60
+
+func verifPTimeRange() {
+	verifPMaxT = int64(1) << uint(verif.Bound("time_bits", 60, 60))
+}
 
 type verifPHostList struct{ set stringset.Set }
 
@@ -42,11 +46,12 @@ func verifPFiltered(fs []int64, now, ft int64, fails int) bool {
 // symbolic timeline of Failed / Run events at symbolic non-decreasing instants
 // and compares every Run and Resolve against the window rule.
 func verifPassiveTimeline(nhosts, steps int) {
+	verifPTimeRange()
 	fails := verif.IntRange("fails", 1, 3)
 	ft := verif.Int64("fail_timeout")
 	verif.Assume(ft >= 1)
 	verif.Assume(ft <= verifPMaxT)
-	verif.Note("instants and FailTimeout within [0, 2^60] ns; clock never goes backwards")
+	verif.Note("instants and FailTimeout within [0, 2^time_bits] ns ; clock never goes backwards")
 
 	clk := clock.NewMock()
 	now := verif.Int64("t0")
@@ -80,13 +85,28 @@ func verifPassiveTimeline(nhosts, steps int) {
 		verif.Assert("resolve-never-empty", len(r) > 0)
 	}
 
-	for s := 0; s < steps; s++ {
+	advance := func() {
 		d := verif.Int64("advance")
 		verif.Assume(d >= 0)
 		verif.Assume(d <= verifPMaxT)
+		prev := now
 		now += d
 		verif.Assume(now <= verifPMaxT)
+		// Solver hints, not restrictions: both facts follow from prev <= now,
+		// the order of the recorded failures and the range bound (no overflow);
+		// stating them spares the solver a bit-level proof of monotonicity.
+		for h := range ghost {
+			for j, f := range ghost[h] {
+				verif.Assume(now-f >= prev-f)
+				if j > 0 {
+					verif.Assume(now-f <= now-ghost[h][j-1])
+				}
+			}
+		}
 		clk.Set(time.Unix(0, now))
+	}
+	for s := 0; s < steps; s++ {
+		advance()
 		op := verif.Choice("op", nhosts+1)
 		if op < nhosts {
 			p.Failed(verifPHosts[op])
@@ -95,12 +115,13 @@ func verifPassiveTimeline(nhosts, steps int) {
 			check()
 		}
 	}
+	advance()
 	check()
 }
 
 // VerifPassiveWindowOneHost: a longer timeline on a single host.
 func VerifPassiveWindowOneHost() {
-	verifPassiveTimeline(1, verif.Bound("events_one_host", 5, 7))
+	verifPassiveTimeline(1, verif.Bound("events_one_host", 4, 7))
 }
 
 // VerifPassiveWindowTwoHosts: failures of one host never influence another.
